@@ -1814,9 +1814,44 @@ class Interp:
         self.exec_block(st.body[:-1], fr)
         return True
 
+    def bulk_loop(self, node, fr, iterable_value):
+        """`for x in E: B.remove(x)` / `B.discard(x)` with E and B two different sets of records of one key shape needs
+        no invariant: it is B -= E.  `remove` raises KeyError when some element of E is not in B - decided with a fresh
+        witness key (a feasible witness is a reachable KeyError; none means E is a subset of B)."""
+        if isinstance(node, ast.AsyncFor) or node.orelse or len(node.body) != 1 or not isinstance(node.target, ast.Name):
+            return False
+        st = node.body[0]
+        if not (isinstance(st, ast.Expr) and isinstance(st.value, ast.Call) and isinstance(st.value.func, ast.Attribute)
+                and st.value.func.attr in ("remove", "discard") and len(st.value.args) == 1 and not st.value.keywords
+                and isinstance(st.value.args[0], ast.Name) and st.value.args[0].id == node.target.id):
+            return False
+        if not (isinstance(iterable_value, VRef) and isinstance(self.ctx.deref(iterable_value), HKeySet)):
+            return False
+        recv_expr = st.value.func.value
+        if any(isinstance(n, (ast.Call, ast.Await, ast.NamedExpr)) for n in ast.walk(recv_expr)):
+            return False
+        recv = self.eval(recv_expr, fr)
+        if not (isinstance(recv, VRef) and recv != iterable_value and isinstance(self.ctx.deref(recv), HKeySet)):
+            return False
+        from . import keysets
+        e, b = self.ctx.deref(iterable_value).val, self.ctx.deref(recv)
+        if e.shape.key != b.val.shape.key:
+            return False
+        if st.value.func.attr == "remove":
+            wk = [z3.Int(fresh_name("wk")) for _ in e.shape.key]
+            if self.ctx.branch(z3.And(keysets.nsel(e.present, wk), z3.Not(keysets.nsel(b.val.present, wk))),
+                               "element to remove not in set"):
+                raise PyRaise("KeyError")
+        self.ctx.mutate()
+        b.val = keysets.difference(self.engine, self, b.val, e)
+        return True
+
     def s_For(self, node, fr):
         spec = self.engine.loop_spec(self, node, fr)
-        it = self.as_symbolic_iterable(self.eval(node.iter, fr))
+        it_value = self.eval(node.iter, fr)
+        if spec is None and self.bulk_loop(node, fr, it_value):
+            return None
+        it = self.as_symbolic_iterable(it_value)
         if spec is None and (isinstance(it, (SymSeq, SymSet, SymMap, Stream)) or models.is_symbolic_iterable(self, it)):
             # a loop over a symbolic collection inside a helper executed inline: the code may have been moved there
             # (and its loop variable renamed) - look for its invariant with the fallback rules
